@@ -31,6 +31,11 @@ def bounds(tier):
     q = tier == "quick"
     return {"complete greedy": f"values 0..{4 if q else 5}, 1..{5 if q else 6} items, 1..{3 if q else 4} bins, 3 objectives x 16 switch combinations, every cut",
             "cbldm": f"values 0..{5 if q else 6}, 1..{6 if q else 7} items, bounds {{1,2,default}}, every cut",
+            "complete greedy, named": f"values 0..4, 2..{4 if q else 5} items given by name (names anti-correlated with values), 2..3 bins, 3 objectives x {{all switches on, all off}}, every cut",
+            "complete greedy, offsets": f"letters {{b/2+7, b+1, b+5, b+6, 2b+1, 2b+8}}, b in {{1e5" + ("" if q else ", 1e6, 2**24, 1e9") + f"}}, 3..5 items, 2..3 bins, every cut",
+            "cbldm, offsets and spread": f"offset letters (4 bases) 3..{5 if q else 6} items; values {{0,1,2,4,5,10,14}} 3..{5 if q else 6} items",
+            "before the cuts": "an interrupted call (cut 0) followed by an unlimited call: the latter must be valid and optimal",
+            "after the cuts": "an unlimited run in the same process must reproduce the first unlimited result",
             "ckk generator": f"values 0..{5 if q else 6}, 1..{6 if q else 7} items, k=2..4, every yield prefix"}
 
 
@@ -42,6 +47,14 @@ def tasks(tier):
     for ch in scopes.chunk_multisets(range(0, 6 if q else 7), 1, 6 if q else 7, 40):
         ts.append(("cbldm", ch, None))
         ts.append(("ckkgen", ch, (2, 3, 4)))
+    for ch in scopes.chunk_multisets(range(0, 5), 2, 4 if q else 5, 8):
+        ts.append(("cg-named", ch, (2, 3)))
+    for ch in spaces.chunked(scopes.offset_multisets(3, 5, scopes.OFFSET_BASES[:1] if q else scopes.OFFSET_BASES), 8):
+        ts.append(("cg-offset", ch, (2, 3)))
+    for ch in spaces.chunked(scopes.offset_multisets(3, 5 if q else 6), 40):
+        ts.append(("cbldm", ch, None))
+    for ch in scopes.chunk_multisets((0, 1, 2, 4, 5, 10, 14), 3, 5 if q else 6, 40):
+        ts.append(("cbldm", ch, None))
     return ts
 
 
@@ -63,25 +76,37 @@ def _valid(items, k, bins):
     return None
 
 
+_NAMES = [None]      # name -> value when the items are presented by name (scope cg-named)
+
+
 def _run_cg(items, k, kw, limit):
     with patched_clock(repo.cg_mod) as clk:
         try:
-            r = repo.cg_mod.anytime(repo.prtpy.BinnerKeepingContents(), k, list(items), time_limit=limit, **kw)
-            r = None if r is None else ([float(s) for s in r[0]], [list(b) for b in r[1]])
+            d = _NAMES[0]
+            binner = repo.prtpy.BinnerKeepingContents() if d is None else repo.prtpy.BinnerKeepingContents(d.__getitem__)
+            r = repo.cg_mod.anytime(binner, k, list(items) if d is None else list(d.keys()), time_limit=limit, **kw)
+            r = None if r is None else ([float(s) for s in r[0]], [list(b) if d is None else [d[x] for x in b] for b in r[1]])
         except Exception as e:
             r = ("exc", f"{type(e).__name__}: {e}")
     return r, clk.readings
 
 
-def _cg(acc, ms, k):
+def _cg(acc, ms, k, all_switches=True):
     items = list(ms)
     lpt = O.lpt_sums(items, k)
-    for kwspec in scopes.cg_configs(all_switches=True):
+    for kwspec in scopes.cg_configs(all_switches=all_switches):
         spec = kwspec["objective"]
         kw = repo.build_kwargs(kwspec)
         cfg = ";".join(f"{a}={b}" for a, b in sorted(kwspec.items()))
-        base = {"part": "cg", "items": items, "k": k, "kw": kwspec}
+        base = {"part": "cg", "items": items, "k": k, "kw": kwspec, "named": _NAMES[0] is not None, "all_switches": all_switches}
         inp = f"{items};k={k}"
+        # an interrupted call FIRST, then an unlimited one: whatever the interrupted call left behind must not reach the second
+        _run_cg(items, k, kw, 0.5)
+        first, _ = _run_cg(items, k, kw, np.inf)
+        acc.ran("cg", 2)
+        if first is None or first[0] == "exc" or _valid(items, k, first) or O.objective_value(spec, first[0]) != O.optimum_value(spec, tuple(ms), k):
+            acc.violation("cg", cfg, inp, "unlimited_run_after_an_interrupted_run_not_optimal", O.optimum_value(spec, tuple(ms), k), first, dict(base, cut=None))
+            continue
         final, T = _run_cg(items, k, kw, np.inf)
         acc.ran("cg")
         if T < 1:
@@ -131,6 +156,11 @@ def _cg(acc, ms, k):
         acc.ran("cg", 2)
         if a != b:
             acc.violation("cg", cfg, inp + f";cut={j}", "replay_not_deterministic", a, b, dict(base, cut=j))
+        # an unlimited run AFTER the interrupted ones (same process) must still be the unlimited result
+        again, _ = _run_cg(items, k, kw, np.inf)
+        acc.ran("cg")
+        if again != final:
+            acc.violation("cg", cfg, inp, "unlimited_run_after_interrupted_runs_differs", final, again, dict(base, cut=None))
 
 
 # ---------------------------------------------------------------- cbldm
@@ -159,6 +189,12 @@ def _cbldm(acc, ms):
         base = {"part": "cbldm", "items": items, "d": d}
         cfg = f"partition_difference={d}"
         inp = f"{items}"
+        _run_cbldm(items, d, 0.5)
+        first, _ = _run_cbldm(items, d, np.inf)
+        acc.ran("cbldm", 2)
+        if first[0] == "exc" or _is_placeholder(first) or _valid(items, 2, first) or abs(first[0][0] - first[0][1]) != O.opt_two_way(tuple(ms), d):
+            acc.violation("cbldm", cfg, inp, "unlimited_run_after_an_interrupted_run_not_optimal", O.opt_two_way(tuple(ms), d), first, dict(base, cut=None))
+            continue
         final, T = _run_cbldm(items, d, np.inf)
         acc.ran("cbldm")
         if T < 1:
@@ -199,6 +235,10 @@ def _cbldm(acc, ms):
         acc.ran("cbldm", 2)
         if a != b:
             acc.violation("cbldm", cfg, inp + f";cut={j}", "replay_not_deterministic", a, b, dict(base, cut=j))
+        again, _ = _run_cbldm(items, d, np.inf)
+        acc.ran("cbldm")
+        if again != final:
+            acc.violation("cbldm", cfg, inp, "unlimited_run_after_interrupted_runs_differs", final, again, dict(base, cut=None))
 
 
 # ---------------------------------------------------------------- ckk generator
@@ -245,6 +285,17 @@ def run_task(task):
         if scope == "cg":
             for k in ks:
                 _cg(acc, ms, k)
+        elif scope == "cg-named":
+            _, _, d = repo.present(list(ms), "dict_str")       # names anti-correlated with the values
+            _NAMES[0] = d
+            try:
+                for k in ks:
+                    _cg(acc, tuple(d.values()), k, all_switches=False)
+            finally:
+                _NAMES[0] = None
+        elif scope == "cg-offset":
+            for k in ks:
+                _cg(acc, ms, k, all_switches=False)
         elif scope == "cbldm":
             _cbldm(acc, ms)
         else:
@@ -257,7 +308,13 @@ def run_task(task):
 
 def replay(case, acc):
     if case["part"] == "cg":
-        _cg(acc, tuple(case["items"]), case["k"])
+        if case.get("named"):
+            _, _, d = repo.present(list(case["items"]), "dict_str")
+            _NAMES[0] = d
+        try:
+            _cg(acc, tuple(case["items"]), case["k"], all_switches=case.get("all_switches", True))
+        finally:
+            _NAMES[0] = None
     elif case["part"] == "cbldm":
         _cbldm(acc, tuple(case["items"]))
     else:
